@@ -114,6 +114,17 @@ def check_pair(mod, label, tabs, N, rng):
                 bad.append(("%s.ft2:parseval" % label, dict(N=N, delta=delta)))
         if bad:
             break
+    # real-dtype arrays are complex arrays with zero imaginary part, for EVERY function (a real spectrum has a complex inverse)
+    if N >= 1:
+        xr1 = rng.standard_normal((2, N))
+        xr2 = rng.standard_normal((2, N, N))
+        df_ = 1.0 / (N * 0.5)
+        for fn, arg, sp in (("ft", xr1, 0.5), ("ift", xr1, df_), ("ft2", xr2, 0.5), ("ift2", xr2, df_)):
+            g_r = np.asarray(getattr(mod, fn)(arg.copy(), sp))
+            g_c = np.asarray(getattr(mod, fn)(arg.astype(complex), sp))
+            if g_r.shape != g_c.shape or not np.allclose(g_r, g_c, rtol=0, atol=1e-12 * N * N * max(1.0, np.abs(g_c).max())):
+                bad.append(("%s.%s:input-dtype-float64" % (label, fn), dict(N=N, imaginary_part_lost=bool(np.isrealobj(g_r) and np.abs(g_c.imag).max() > 1e-9))))
+                break
     # narrow integer / single-precision samples with integer-valued spacings, and nested sequences instead of arrays: the
     # transform of the same numbers (values up to 200, so that value * delta^2 does not fit the narrow types)
     if N >= 2:
